@@ -89,22 +89,29 @@ Print Assumptions C15_graph_fresh_log.
    initializer w, then a node with two unnamed outputs *)
 Example ex_log :
   (forall ops g lg, exists g1 lg1, grun_log ops g lg = Some (g1, lg1)) /\
-  exists g lg, grun_log [GNewValue 0 (Some [119]); GNewValue 1 None; GCtor [1; 0];
+  exists g lg, grun_log [GNewValue 0 (Some [119]); GNewValue 1 None; GCtor [1] [0];
                          GNewNode 0 None [65] [(2, None); (3, None)] false; GAdd [0]] g0 ([], []) = Some (g, lg) /\
                map (g_vname g) [0; 1; 2; 3] = [Some [119]; Some (val_name 0); Some (val_name 1); Some (val_name 2)] /\
                length (fst lg) = 4%nat.
 Proof. split; [exact grun_log_total|]. eexists. eexists. vm_compute. repeat split; reflexivity. Qed.
 
-(* STRONGER READING ("a generated name never equals a name present in the graph", not only names registered
-   BEFORE): refuted on the code as it exists by the constructor - Graph(inputs, initializers) names the unnamed
-   inputs before it registers the initializers' names (and later explicit input names): an unnamed input of a graph
-   built with an initializer explicitly named val_0 is given the name val_0 as well.  Known finding
-   ctor-names-inputs-before-registering-explicit-names; proposed_fixes/C15-ctor-register-explicit-names-first.diff *)
-Theorem C15_ctor_generated_equals_present_refuted :
-  exists g, grun [GNewValue 0 (Some (val_name 0)); GNewValue 1 None; GCtor [1; 0]] g0 = Some g /\
-            g_vname g 1 = Some (val_name 0) /\ g_vname g 0 = Some (val_name 0).
+(* C15_ctor_generated_equals_present (the STRONGER reading: a generated name never equals a name present in the
+   graph being built): since fix f54d66f Graph(inputs, initializers) registers every explicit name before it names
+   the unnamed inputs, so a name given to an unnamed input differs from the explicit name of every input and
+   initializer of that graph - from any authority state.  (Before the fix this was refuted: an unnamed input of a
+   graph built with an initializer val_0 was named val_0; the witness below now gets val_1.) *)
+Theorem C15_ctor_generated_equals_present :
+  forall g ins inits g2 r v s w x,
+  gstep g (GCtor ins inits) = Some (g2, r) ->
+  g_vname g v = None -> g_vname g2 v = Some s ->
+  In w (ins ++ inits) -> g_vname g w = Some x -> s <> x.
+Proof. exact ctor_generated_not_present. Qed.
+Print Assumptions C15_ctor_generated_equals_present.
+
+Example ex_ctor_witness_fixed :
+  exists g, grun [GNewValue 0 (Some (val_name 0)); GNewValue 1 None; GCtor [1] [0]] g0 = Some g /\
+            g_vname g 1 = Some (val_name 1) /\ g_vname g 0 = Some (val_name 0).
 Proof. eexists. vm_compute. repeat split; reflexivity. Qed.
-Print Assumptions C15_ctor_generated_equals_present_refuted.
 
 (* ===================== (B) NameFixPass (the code after fix 25cf9b5: fresh names avoid every name that
    exists in the graph).  Hypotheses used below:
@@ -115,7 +122,9 @@ Print Assumptions C15_ctor_generated_equals_present_refuted.
                         every valid model: function bodies are closed; needed: C15_fix_total_unclosed_refuted);
      well_scoped es inits every value is first met in the scope of its graph or of an enclosing graph (e.g. sorted
                         graphs whose subgraphs capture only values defined before the enclosing node) - a
-                        name-free property of the traversal (needed: C15_fix_post_unsorted_refuted);
+                        name-free property of the traversal (a hypothesis of this kind is needed: C15_fix_post_sibling_refuted;
+                        since fix 5fabe37 the code also handles captures from ENCLOSING graphs in any order, which
+                        well_scoped still excludes - covered by the tie, see C15_fix_post_unsorted_witness_fixed);
      NoDup (ev_nodes es) no node is visited twice (no subgraph object shared by two attributes). ================ *)
 
 (* The `while` loop of _find_and_record_next_unique_name terminates: no run, over any event list from any
@@ -131,9 +140,9 @@ Print Assumptions C15_fix_fuel_suffices.
    the value's original name (and then pre-scanned) or <original name>_<j>; a fresh name is outside the
    pre-scanned set and is <own original name>_<j>, and _-suffixing is injective in both arguments. *)
 Theorem C15_fix_total :
-  forall main funcs vx nx vn nn inits,
+  forall main funcs own vx nx vn nn inits,
   WF0 vn inits -> (forall g, In g (main :: funcs) -> closed_run (events_graph g) inits) ->
-  let r := name_fix_pass main funcs vx nx vn nn inits in
+  let r := name_fix_pass main funcs own vx nx vn nn inits in
   snd r = None /\ WF0 (f_vn (fst r)) (f_inits (fst r)) /\ mem_equiv (f_inits (fst r)) inits.
 Proof. exact name_fix_pass_total. Qed.
 Print Assumptions C15_fix_total.
@@ -142,13 +151,13 @@ Print Assumptions C15_fix_total.
    `a` of the main graph whose initializers are a, a_1 (not valid ONNX) -> ValueError.  Known finding. *)
 Theorem C15_fix_total_unclosed_refuted :
   exists main funcs vn nn inits,
-  snd (name_fix_pass main funcs (fun _ => 0) (fun _ => 0) vn nn inits) = Some ValueError.
+  snd (name_fix_pass main funcs (fun _ => None) (fun _ => 0) (fun _ => 0) vn nn inits) = Some ValueError.
 Proof. do 5 eexists. exact fix_total_unclosed_refuted. Qed.
 Print Assumptions C15_fix_total_unclosed_refuted.
 
 (* the witness that refuted totality before 25cf9b5 *)
 Theorem C15_fix_total_witness_fixed :
-  let r := name_fix_pass wit_total_graph [] (fun _ => 0) (fun _ => 0) wit_total_vn (fun _ => None) wit_total_inits in
+  let r := name_fix_pass wit_total_graph [] (fun _ => None) (fun _ => 0) (fun _ => 0) wit_total_vn (fun _ => None) wit_total_inits in
   snd r = None /\ map (f_vn (fst r)) [0; 1; 2] = [Some s_w; Some [119; 95; 50]; Some s_w1] /\
   f_inits (fst r) = [(0, [(s_w1, 2); ([119; 95; 50], 1)])].
 Proof. exact wit_total_now_ok. Qed.
@@ -161,10 +170,10 @@ Print Assumptions C15_fix_total_witness_fixed.
    enclosing node) carry pairwise distinct names; the nodes of every h carry pairwise distinct names;
    initializers are keyed by their current names (WF0 of the final state). *)
 Theorem C15_fix_post :
-  forall g vx nx vn nn inits m,
+  forall g ow vx nx vn nn inits m,
   WF0 vn inits -> closed_run (events_graph g) inits -> NoDup (ev_nodes (events_graph g)) ->
   well_scoped (events_graph g) inits ->
-  let r := fix_graph_names g vx nx vn nn inits m in
+  let r := fix_graph_names g ow vx nx vn nn inits m in
   let s' := fst r in
   snd r = None /\
   (forall v, run_vals (events_graph g) inits v -> exists x, f_vn s' v = Some x /\ x <> []) /\
@@ -191,27 +200,38 @@ Proof.
   split; [vm_compute; reflexivity | vm_compute; discriminate].
 Qed.
 
-(* C15_fix_post without the scoping hypothesis is false on the code as it exists (known finding). *)
-Theorem C15_fix_post_unsorted_refuted :
-  exists main vn nn u v,
-  let r := name_fix_pass main [] (fun _ => 0) (fun _ => 0) vn nn [] in
-  snd r = None /\ f_mod (fst r) = false /\ u <> v /\ In u (own_values main) /\ In v (own_values main) /\
-  f_vn (fst r) u = f_vn (fst r) v.
-Proof.
-  exists wit_unsorted_graph, wit_unsorted_vn, wit_unsorted_nn, 1, 4.
-  destruct fix_post_unsorted_refuted as [A [B [C [D E]]]]. repeat split; try assumption. discriminate.
-Qed.
-Print Assumptions C15_fix_post_unsorted_refuted.
+(* The unsorted outer capture that refuted C15_fix_post before fix 5fabe37 (a subgraph reads an outer value produced
+   by a later node; two outputs of the outer graph kept the name y, modified = false): the captured value's name is
+   now recorded in the scope of the graph that owns it, and the later y becomes y_1.  (That witness is not
+   well_scoped: the theorem above does not cover it; the model and the tie do.) *)
+Theorem C15_fix_post_unsorted_witness_fixed :
+  let r := name_fix_pass wit_unsorted_graph [] wit_unsorted_own (fun _ => 0) (fun _ => 0) wit_unsorted_vn wit_unsorted_nn [] in
+  snd r = None /\ f_mod (fst r) = true /\
+  map (f_vn (fst r)) [0; 1; 2; 3; 4] = [Some [99]; Some s_y; Some [105]; Some [102]; Some [121; 95; 49]].
+Proof. exact wit_unsorted_now_ok. Qed.
+Print Assumptions C15_fix_post_unsorted_witness_fixed.
 
+(* A scoping hypothesis is still needed on the code as it exists: a subgraph that reads a value owned by a SIBLING
+   subgraph (not valid ONNX) - the owner's scope is not open at the first visit, so nothing can be recorded, and two
+   values of the sibling keep the same name with modified = false.  Known finding namefix-sibling-capture. *)
+Theorem C15_fix_post_sibling_refuted :
+  exists main ow vn nn u v,
+  let r := name_fix_pass main [] ow (fun _ => 0) (fun _ => 0) vn nn [] in
+  snd r = None /\ f_mod (fst r) = false /\ u <> v /\ ow u = ow v /\ f_vn (fst r) u = f_vn (fst r) v.
+Proof.
+  exists wit_sibling_graph, wit_sibling_own, wit_sibling_vn, wit_sibling_nn, 2, 4.
+  destruct fix_post_sibling_refuted as [A [B C]]. repeat split; try assumption. discriminate.
+Qed.
+Print Assumptions C15_fix_post_sibling_refuted.
 
 (* C15_fix_never_worse: one _fix_graph_names run over ANY graph and ANY scoping (no well_scoped, no closed_run,
    no WF0 hypothesis; only that this run did not raise): a value whose name the run changes gets a name that no
    value met by the run carried before; so two values met by the run that carry the same non-empty name afterwards
    either both kept their (already equal) names or were both renamed (in different scopes).  In particular the
-   duplicate left by the known finding namefix-unsorted-outer-capture existed before the pass. *)
+   duplicate left by the known finding namefix-sibling-capture existed before the pass. *)
 Theorem C15_fix_never_worse :
-  forall g vx nx vn nn inits m s',
-  fix_graph_names g vx nx vn nn inits m = (s', None) ->
+  forall g own vx nx vn nn inits m s',
+  fix_graph_names g own vx nx vn nn inits m = (s', None) ->
   (forall v w x, f_vn s' v = Some x -> x <> [] -> f_vn s' v <> vn v ->
      In w (ev_values (events_graph g)) -> vn w <> Some x) /\
   (forall v w x, In v (ev_values (events_graph g)) -> In w (ev_values (events_graph g)) ->
@@ -224,26 +244,26 @@ Print Assumptions C15_fix_never_worse.
    value is met by graph g (as graph input/output, node input/output or only through an initializer dictionary)
    and no other value met by g carries its non-empty name: it keeps that name. *)
 Theorem C15_fix_keeps_unique :
-  forall l1 g l2 vx nx vn nn inits v n main funcs,
+  forall l1 g l2 own vx nx vn nn inits v n main funcs,
   main :: funcs = l1 ++ g :: l2 ->
   WF0 vn inits -> (forall g', In g' (main :: funcs) -> closed_run (events_graph g') inits) ->
   vn v = Some n -> n <> [] -> run_vals (events_graph g) inits v ->
   (forall w, w <> v -> run_vals (events_graph g) inits w -> vn w <> Some n) ->
   (forall g' w, In g' (l1 ++ l2) -> run_vals (events_graph g) inits w -> ~ run_vals (events_graph g') inits w) ->
-  f_vn (fst (name_fix_pass main funcs vx nx vn nn inits)) v = Some n.
+  f_vn (fst (name_fix_pass main funcs own vx nx vn nn inits)) v = Some n.
 Proof. exact pass_keeps_unique_value. Qed.
 Print Assumptions C15_fix_keeps_unique.
 
 (* ... and node names *)
 Theorem C15_fix_keeps_unique_node :
-  forall l1 g l2 vx nx vn nn inits a n main funcs,
+  forall l1 g l2 own vx nx vn nn inits a n main funcs,
   main :: funcs = l1 ++ g :: l2 ->
   WF0 vn inits -> (forall g', In g' (main :: funcs) -> closed_run (events_graph g') inits) ->
   NoDup (ev_nodes (events_graph g)) ->
   nn a = Some n -> n <> [] -> In a (ev_nodes (events_graph g)) ->
   (forall b, b <> a -> In b (ev_nodes (events_graph g)) -> nn b <> Some n) ->
   (forall g' b, In g' (l1 ++ l2) -> In b (ev_nodes (events_graph g)) -> ~ In b (ev_nodes (events_graph g'))) ->
-  f_nn (fst (name_fix_pass main funcs vx nx vn nn inits)) a = Some n.
+  f_nn (fst (name_fix_pass main funcs own vx nx vn nn inits)) a = Some n.
 Proof. exact pass_keeps_unique_node. Qed.
 Print Assumptions C15_fix_keeps_unique_node.
 
@@ -251,7 +271,7 @@ Print Assumptions C15_fix_keeps_unique_node.
    the main graph (not valid ONNX).  Known finding. *)
 Theorem C15_fix_keeps_unique_shared_refuted :
   exists main funcs vn nn inits others v nm,
-  let r := name_fix_pass main funcs (fun _ => 0) (fun _ => 0) vn nn inits in
+  let r := name_fix_pass main funcs (fun _ => None) (fun _ => 0) (fun _ => 0) vn nn inits in
   snd r = None /\ vn v = Some nm /\ (forall u, In u others -> vn u <> Some nm) /\ f_vn (fst r) v <> Some nm.
 Proof.
   exists wit_shared_main, [wit_shared_func], wit_shared_vn, wit_shared_nn, wit_shared_inits, [0; 1], 2, s_x1.
@@ -261,7 +281,7 @@ Print Assumptions C15_fix_keeps_unique_shared_refuted.
 
 (* the witness that refuted it before 25cf9b5 *)
 Theorem C15_fix_keeps_unique_witness_fixed :
-  let r := name_fix_pass wit_keep_graph [] (fun _ => 0) (fun _ => 0) wit_keep_vn (fun _ => None) [] in
+  let r := name_fix_pass wit_keep_graph [] (fun _ => None) (fun _ => 0) (fun _ => 0) wit_keep_vn (fun _ => None) [] in
   snd r = None /\ map (f_vn (fst r)) [0; 1; 2] = [Some s_x; Some [120; 95; 50]; Some s_x1].
 Proof. exact wit_keep_now_ok. Qed.
 Print Assumptions C15_fix_keeps_unique_witness_fixed.
@@ -271,8 +291,8 @@ Print Assumptions C15_fix_keeps_unique_witness_fixed.
    compares it afterwards).  For every model and whatever the outcome, Ok or Raise, the payloads are unchanged;
    on well-formed closed models every graph keeps exactly its initializer values. *)
 Theorem C15_fix_only_names :
-  forall main funcs vx nx vn nn inits,
-  let r := name_fix_pass main funcs vx nx vn nn inits in
+  forall main funcs own vx nx vn nn inits,
+  let r := name_fix_pass main funcs own vx nx vn nn inits in
   f_vx (fst r) = vx /\ f_nx (fst r) = nx /\
   (WF0 vn inits -> (forall g, In g (main :: funcs) -> closed_run (events_graph g) inits) ->
      mem_equiv (f_inits (fst r)) inits).
